@@ -289,7 +289,7 @@ def main(tier, seed):
              'values, and wild API-built ones (named reasons outside Expressible), plus the corpus; each rendered, re-parsed, '
              're-rendered twice. Non-trivial: >=1 table and >=2 features; distinct by content hash',
         explanation='Theorem flags_table_roundtrip_partial (one table whose columns carry ANY SUBSET of the settings pk, increment, unique, '
-                    'not null and possibly a one-line note round-trips, with the properties switch on or off: the settings list goes through column_settings / '
+                    'not null, possibly a one-line note and (switch on) any number of properties key: \'value\' round-trips, with the properties switch on or off: the settings list goes through column_settings / '
                     'column_settings_with_properties, parse_column_settings, ColumnBlueprint.build and render_column; it is an instance of '
                     'form_roundtrip, which carries any column FORM that is read back through the table rule, the document, the build and '
                     'the renderer). Theorem refs_roundtrip_partial (a database of any positive number of plain tables and any positive number of pairwise '
